@@ -134,6 +134,28 @@ Section Stream.
   Definition xarray_run (cfg : list context) (tbl : table) : srun :=
     SList (flat_map (fun c => flat_map (run_call tbl (window_mask_x tbl c)) (cx_calls c)) cfg).
 
+  (* ---------------------------------------------------------------- Config.contexts
+     the front ends iterate `config.contexts`: the calls grouped by equal context (window and
+     region), groups in first-seen order, calls in configuration order inside a group *)
+
+  Definition obound_eqb (a b : option Z) : bool :=
+    match a, b with Some x, Some y => Z.eqb x y | None, None => true | _, _ => false end.
+
+  Definition win_eqb (a b : context) : bool :=
+    (obound_eqb (w_start a) (w_start b) && obound_eqb (w_end a) (w_end b))%bool.
+
+  Fixpoint add_group (c : context) (gs : list context) : list context :=
+    match gs with
+    | [] => [c]
+    | g :: r =>
+        if win_eqb g c
+        then {| w_start := w_start g; w_end := w_end g; cx_calls := cx_calls g ++ cx_calls c |} :: r
+        else g :: add_group c r
+    end.
+
+  Definition group_contexts (cfg : list context) : list context :=
+    fold_left (fun gs c => add_group c gs) cfg [].
+
   (* ---------------------------------------------------------------- faults (C18) *)
 
   (* a call that yields no CallResult on this table with this window *)
